@@ -91,14 +91,15 @@ func (lc *LocalClient) AddVersion(v Version, deps []RequirementVersion) {
 	for i, w := range versions {
 		if w.VersionKey == v.VersionKey {
 			existed = true
-			versions[i] = w
+			versions[i] = v
 		}
 	}
-	// Otherwise insert and sort.
+	// Otherwise insert.
 	if !existed {
 		versions = append(versions, v)
-		SortVersions(versions)
 	}
+	// Sort in both cases: new attributes can change the order.
+	SortVersions(versions)
 	lc.PackageVersions[v.PackageKey] = versions
 
 	SortDependencies(deps)
